@@ -201,7 +201,7 @@ func (m *Model) WellFormed(w *World, shard int) []Clause {
 					continue
 				}
 				if t.Value.Sign() < 0 {
-					bad("negative-balance", "%s holds %v at %q", shortAddr(a.Addr), t.Value, sfx)
+					out = append(out, clause([]string{"C15", "C02"}, "wellformed/negative-balance", "%s holds the negative balance %v at %q", shortAddr(a.Addr), t.Value, sfx))
 				}
 				if t.Value.Sign() == 0 && !(isFrozenProps(t.Properties) && rest == "" && t.Meta == nil) {
 					bad("zero-balance-stored", "%s stores a zero balance at %q without a frozen flag", shortAddr(a.Addr), sfx)
